@@ -63,6 +63,8 @@ def generate_for(prop, rng):
                rs_seed=rng.randrange(10000))
     if p["kernel"] == "precomputed":
         cfg["affinity_src"] = choice(rng, ["linear", "rbf", "indefinite", "polynomial"])
+    if rng.random() < 0.08:
+        cfg["np_scalars"] = True            # limits that come out of numpy computations: np.int64 is numbers.Integral
     faults = {"subset_mode": weighted(rng, [("faithful", 3), ("first", 1), ("last", 1), ("adversary", 2)]),
               "steer_p": weighted(rng, [(0.0, 4), (0.3, 3), (0.6, 3)]), "steer_seed": rng.randrange(2 ** 31),
               "steer_bias": weighted(rng, [("uniform", 2), ("switch_early", 2)])}
@@ -518,7 +520,8 @@ def execute_for(prop, record):
         world = World(log, res, sub_rng)
         rs = SimRandomState(np.random.RandomState(cfg["rs_seed"]), log, rng=sub_rng, subset_mode=faults.get("subset_mode", "faithful"),
                             result=res)
-        model = Kauri(random_state=rs, **p)
+        from ..families import numpy_scalars
+        model = Kauri(random_state=rs, **(numpy_scalars(p) if cfg.get("np_scalars") else p))
         cur = dict(p)                       # the hyper-parameters the user has set so far
         oracle = None
         with world, quiet():
